@@ -70,7 +70,8 @@ def loop_of(s, var):
 def extract_img(tmpl_fn, notes):
     g = {"im_nest_ok": False, "im_loop_y": "mkLoop EUnknown EUnknown false", "im_loop_x": "mkLoop EUnknown EUnknown false",
          "im_loop_c": "mkLoop EUnknown EUnknown false", "im_row": "EUnknown", "im_in_index": "EUnknown", "im_out_index": "EUnknown",
-         "im_fwrite_count": "EUnknown", "im_header_wh": False, "im_trailer_newline": False}
+         "im_fwrite_count": "EUnknown", "im_scratch_once": False, "im_scratch_count": "EUnknown",
+         "im_header_wh": False, "im_trailer_newline": False}
     b = flat(body_of(tmpl_fn))
     FILE = ("ref", "file", "VarDecl")
     hdr = ("expr", ("call", "fprintf", FILE, ("ref", "header", "ParmVarDecl"), ("ref", "sizeX", "ParmVarDecl"), ("ref", "sizeY", "ParmVarDecl")))
@@ -83,6 +84,22 @@ def extract_img(tmpl_fn, notes):
     before_ok = all(not (s[0] == "expr" and isinstance(s[1], tuple) and s[1][0] == "call" and s[1][1] in ("fprintf", "fwrite", "fputs", "fputc")) for s in b[:ih])
     g["im_header_wh"] = before_ok
     rest = b[ih + 1:]
+    # the row scratch buffer: out = (COMP_T *)alloca(sizeof(COMP_T) * COUNT), once, at top level before the row loop
+    outs = [s for s in rest if s[0] == "decl" and s[1] == "out"]
+    if len(outs) == 1 and rest and rest[0] == outs[0] and outs[0][3] is not None and outs[0][3][:2] == ("call", "__builtin_alloca") \
+            and len(outs[0][3]) == 3 and repr(b).count("alloca") == 1:
+        e = outs[0][3][2]
+        cnt = None
+        if e[:2] == ("bin", "*") and e[2] == ("sizeof", "COMP_T"):
+            cnt = e[3]
+        elif e[:2] == ("bin", "*") and e[2][:3] == ("bin", "*", ("sizeof", "COMP_T")):
+            cnt = ("bin", "*", e[2][3], e[3])
+        if cnt is not None:
+            g["im_scratch_once"] = True
+            g["im_scratch_count"] = iexp(cnt)
+    if not g["im_scratch_once"]:
+        notes.append("writeImage: the scratch buffer is not one alloca before the row loop (%d alloca calls, %d top-level `out` declarations)"
+                     % (repr(b).count("alloca"), len(outs)))
     # expected: [decl out] for-y fprintf("\n") fclose
     mid = [s for s in rest if not (s[0] == "decl" and s[1] == "out")]
     if len(mid) < 2 or mid[0][0] != "for":
@@ -381,7 +398,11 @@ def unwrap(s):
 
 def extract_reg(docs, g, notes):
     """getThreadTraceList (find-or-create under the lock), the thread_local cache and the entry points that fill it"""
-    g.update({"tr_registry": "RegOther", "tr_reg_lock_first": False, "tr_tls_cache": False})
+    g.update({"tr_registry": "RegOther", "tr_reg_lock_first": False, "tr_tls_cache": False,
+              "tr_strcache": "StrOther", "tr_tel_fields": False, "tr_names_via_cache": False})
+    CACHE = ("mem", "stringCache", "this")
+    STR = ("ref", "str", "ParmVarDecl")
+    via = {}
     MAP = ("mem", "threadTrace", "this")
     ID = ("ref", "id", "ParmVarDecl")
     tls = init_ok = False
@@ -390,9 +411,35 @@ def extract_reg(docs, g, notes):
         k, nm = d.get("kind"), d.get("name")
         if k == "VarDecl" and nm == "threadEventList" and d.get("tls") and d.get("storageClass") == "static":
             tls = True
+        if k == "CXXRecordDecl" and nm == "ThreadEventList" and d.get("completeDefinition"):
+            fields = [c.get("name") for c in inner(d) if c.get("kind") == "FieldDecl"]
+            g["tr_tel_fields"] = fields == ["events", "threadName", "stringCache"]
+            if not g["tr_tel_fields"]:
+                notes.append("ThreadEventList data members: %r" % (fields,))
         b = unwrap(flat(body_of(d))) if k in ("CXXMethodDecl", "FunctionDecl") and body_of(d) is not None else None
         if b is None:
             continue
+        if k == "CXXMethodDecl" and nm == "getCachedString":
+            ok = len(b) == 4 and b[0][:2] == ("if", ("un", "!", "pre", STR)) and single(b[0][2]) == ("ret", "nullptr") and b[0][3] is None \
+                and b[1][0] == "decl" and b[1][3] == ("mcall", "find", CACHE, STR) and b[2][0] == "if" and b[2][3] is None
+            if ok:
+                f = ("ref", b[1][1], "VarDecl")
+                ins = flat(b[2][2])
+                ok = b[2][1] == ("op", "operator==", f, ("mcall", "end", CACHE)) and len(ins) == 3 \
+                    and ins[0][0] == "decl" and ins[0][3] == ("call", "make_shared", STR) \
+                    and ins[1] == ("expr", ("op", "operator=", ("op", "operator[]", CACHE, STR), ("ref", ins[0][1], "VarDecl"))) \
+                    and ins[2] == ("ret", ("mcall", "c_str", ("op", "operator->", ("ref", ins[0][1], "VarDecl")))) \
+                    and b[3] == ("ret", ("mcall", "c_str", ("op", "operator->", ("mem", "second", ("op", "operator->", f)))))
+            g["tr_strcache"] = "StrFindOrInsert" if ok else "StrOther"
+            if not ok:
+                notes.append("getCachedString: not recognised: %r" % (b,))
+        if k == "CXXMethodDecl" and nm in ("beginEvent", "setMarker", "setCounter") and len(b) == 1 and b[0][0] == "expr":
+            con = b[0][1][3] if len(b[0][1]) == 4 else ()
+            cached = lambda a: isinstance(a, tuple) and a[:3] == ("mcall", "getCachedString", "this") and len(a) == 4 and a[3][0] == "ref"  # noqa: E731
+            if nm == "setCounter":
+                via[nm] = len(con) == 5 and cached(con[3]) and con[4][0] == "ref"
+            else:
+                via[nm] = len(con) == 5 and cached(con[3]) and cached(con[4])
         if k == "CXXMethodDecl" and nm == "getThreadTraceList":
             g["tr_reg_lock_first"] = bool(b) and b[0][0] == "decl" and "lock_guard" in b[0][2] and b[0][3] is not None \
                 and ("mem", "threadTraceMutex", "this") in (b[0][3], b[0][3][2:3] and b[0][3][2])
@@ -419,6 +466,9 @@ def extract_reg(docs, g, notes):
                 and flat(b[0][2]) == [("expr", ("op", "operator=", TL, ("mcall", "getThreadTraceList", ("op", "operator->", ("ref", "traceRecorder", "VarDecl")), ("call", "get_id"))))]
         if k == "FunctionDecl" and nm in ("beginEvent", "setMarker", "setCounter", "setThreadName"):
             entry[nm] = bool(b) and b[0] == ("expr", ("call", "initThreadEventList"))
+    g["tr_names_via_cache"] = len(via) == 3 and all(via.values())
+    if not g["tr_names_via_cache"]:
+        notes.append("names/categories through getCachedString: %r" % (via,))
     g["tr_tls_cache"] = tls and init_ok and len(entry) == 4 and all(entry.values())
     if not g["tr_tls_cache"]:
         notes.append("thread_local cache: tls=%s init=%s entry points %r" % (tls, init_ok, entry))
@@ -433,9 +483,10 @@ def coq_text(img, fm, tr):
     L = ["(* GENERATED by props/C20/factgen.py from the working tree - do not edit, not under version control. *)",
          "From Coq Require Import List NArith.", "From C20 Require Import Model FactsDefs.", "Import ListNotations.",
          "Local Open Scope N_scope.", ""]
-    L.append("Definition gen_img : imgfacts :=\n  mkImg %s\n    (%s)\n    (%s)\n    (%s)\n    %s\n    %s\n    %s\n    %s\n    %s %s." % (
+    L.append("Definition gen_img : imgfacts :=\n  mkImg %s\n    (%s)\n    (%s)\n    (%s)\n    %s\n    %s\n    %s\n    %s\n    %s %s\n    %s %s." % (
         cb(img["im_nest_ok"]), img["im_loop_y"], img["im_loop_x"], img["im_loop_c"], img["im_row"], img["im_in_index"],
-        img["im_out_index"], img["im_fwrite_count"], cb(img["im_header_wh"]), cb(img["im_trailer_newline"])))
+        img["im_out_index"], img["im_fwrite_count"], cb(img.get("im_scratch_once")), img.get("im_scratch_count", "EUnknown"),
+        cb(img["im_header_wh"]), cb(img["im_trailer_newline"])))
     L.append("")
     L.append("Definition gen_fmt (i : fmtid) : fmt :=\n  match i with")
     for fid in FMTIDS:
@@ -447,11 +498,12 @@ def coq_text(img, fm, tr):
                 fid, codes(f["magic"].encode()), codes(f["scale"].encode()), f["csize"], f["ncomp"], f["pixcomp"], cb(f["flip"]),
                 f["magic"], f["csize"], f["pixel_t"]))
     L.append("  end.\n")
-    L.append("Definition gen_tr : trfacts :=\n  mkTr %d %s %s %d %s %s %s %d %d %d %s %s %s %s %s %s %d %s\n       %s %s %s." % (
+    L.append("Definition gen_tr : trfacts :=\n  mkTr %d %s %s %d %s %s %s %d %d %d %s %s %s %s %s %s %d %s\n       %s %s %s %s %s %s." % (
         tr["tr_chunk"], tr["tr_cmp"], cb(tr["tr_empty_or"]), tr["tr_reserve"], cb(tr["tr_returns_back"]), cb(tr["tr_record_via_current"]),
         cb(tr["tr_open_first"]), tr["tr_objects"], tr["tr_objects_comma"], tr["tr_bare_close"], tr["tr_seek"], cb(tr["tr_close_last"]),
         tr["tr_stack_scope"], cb(tr["tr_push_begin"]), cb(tr["tr_stray_end_break"]), cb(tr["tr_end_top_pop"]), tr["tr_long_threshold"],
-        cb(tr["tr_tid_counter"]), tr.get("tr_registry", "RegOther"), cb(tr.get("tr_reg_lock_first")), cb(tr.get("tr_tls_cache"))))
+        cb(tr["tr_tid_counter"]), tr.get("tr_registry", "RegOther"), cb(tr.get("tr_reg_lock_first")), tr.get("tr_strcache", "StrOther"), cb(tr.get("tr_tel_fields")),
+        cb(tr.get("tr_names_via_cache")), cb(tr.get("tr_tls_cache"))))
     return "\n".join(L) + "\n"
 
 
